@@ -34,7 +34,13 @@ ASSUMPTIONS = ['step budget A*(len+1)+B token-reader calls (A=400, B=4000); watc
                'default tolerant parsing (latex_to_text without parse flags)']
 
 MATH_MODES = ['text', 'with-delimiters', 'verbatim', 'remove']
-SPACES = [False, 'based-on-source', 'macros', 'except-in-equations', True, 'default']
+SPACES = [False, 'based-on-source', 'macros', 'except-in-equations', True, 'default',
+          # the documented dictionary form, also with a (partial) dictionary for the policies inside formulas
+          {'between-macro-and-chars': True, 'after-comment': True},
+          {'between-latex-constructs': True, 'in-equations': {'between-macro-and-chars': True}},
+          {'between-macro-and-chars': True, 'between-latex-constructs': True, 'after-comment': True,
+           'in-equations': {'between-macro-and-chars': False, 'between-latex-constructs': False, 'after-comment': False}},
+          {'in-equations': False}, 'on', 'off']
 KEEPC = [False, True]
 KEEPB = [False, True]
 FILL = [None, True, 20]
